@@ -9,7 +9,18 @@ open Gendb
 
 let dbdir = Sys.argv.(1)
 let dbs : (string, database) Hashtbl.t = Hashtbl.create 16
-let db_of pkg = match Hashtbl.find_opt dbs pkg with Some d -> d | None -> let d = load_database dbdir pkg in Hashtbl.replace dbs pkg d; d
+let n_msgs_in_class = ref 0
+let n_msgs_out_class = ref 0
+let out_of_class : string list ref = ref []
+let db_of pkg = match Hashtbl.find_opt dbs pkg with Some d -> d | None ->
+  let d = load_database dbdir pkg in
+  Hashtbl.replace dbs pkg d;
+  (* are the hypotheses of the C03/C10 theorems (Gen/ClassCheck.v in_theorem_class, proved sound) true of
+     every message of this program? *)
+  List.iter (fun m ->
+      if in_theorem_class m then incr n_msgs_in_class
+      else begin incr n_msgs_out_class; out_of_class := (pkg ^ "." ^ string_of_bytes m.msg_name) :: !out_of_class end) d.db_messages;
+  d
 
 let two32 = z_of_hex "100000000"
 
@@ -163,4 +174,6 @@ let () =
    with End_of_file -> ());
   let ks = Hashtbl.fold (fun k v acc -> Printf.sprintf "\"%s\":%d" k v :: acc) opkinds [] in
   Printf.printf "OPS {\"operations\":%d,\"physical_setter_ops\":%d,\"physical_setter_ops_exact\":%d,\"op_kinds\":{%s}}\n" !n_ops !n_phys !n_phys_exact (String.concat "," (List.sort compare ks));
+  Printf.printf "CLASS {\"messages_satisfying_theorem_hypotheses\":%d,\"messages_outside\":%d,\"outside\":[%s]}\n"
+    !n_msgs_in_class !n_msgs_out_class (String.concat "," (List.map (fun s -> "\"" ^ s ^ "\"") !out_of_class));
   print_stats ()
